@@ -2,7 +2,9 @@ PROP = dict(
         coq="Properties/C07.v",
         workloads=[
             dict(name="liquidity-orders", go_test="TestC07", runner="C07",
-                 env=dict(quick=dict(VERIF_CASES=40), thorough=dict(VERIF_CASES=800))),
+                 env=dict(quick=dict(VERIF_CASES=40), thorough=dict(VERIF_CASES=600))),
+            dict(name="keeper-f1", go_test="TestC05KeeperHunt", runner="C07",
+                 env=dict(quick=dict(VERIF_CASES=2), thorough=dict(VERIF_CASES=20))),
         ],
         rule="case = (3 apps with swap fee rate drawn from {0, 0.003, 0.3} and market-making tick counts {2,3,10}, 1-3 pairs per app so that app id "
              "and pair id vary independently over {1,2,3}x{1,2,3}, optional basic pool per pair, then 3-8 batches of 10-40 ops: limit / market / "
@@ -10,7 +12,18 @@ PROP = dict(
              "exact / +1 / short, lifespans 0..100000 s), cancel / cancel-all / cancel-market-making by owners and strangers, each batch closed by the "
              "real EndBlocker and BeginBlocker with time advancing 7-20 s); 75% of the orders get an account of their own so that balance deltas are "
              "attributable per order; non-trivial = at least one order was filled and at least one block boundary was crossed; distinct by digest of the "
-             "op kinds and result classes. Cases 0 and 1 start with the regression history of C07-F1 (market-making orders in app 2 / pair 1 resp. app 1 / "
+             "op kinds and result classes. The same pair id names DIFFERENT coins in different apps (pair definitions rotated per app) and 4% of the limit orders "
+             "carry the coins of another app's pair with the same id. In 45% of the cases one pair is reserved for an ORDER-LIFE scenario: a long-lived order T "
+             "(buy 65% / sell, a limit order or the single tick of a market-making order, price*amount fractional) and a counter order for 30-70% of it at T's own "
+             "price (T partially matched in its first batch), next batch two orders that trade with each other 1-4% beyond T (the last price moves past T), then 1-3 "
+             "ladders of 2-5 small counter orders on different ticks from T's price on (T is matched several times in ONE batch at its own price, each fill rounded "
+             "on its own, the last ladder offering more than T has left); 8% of the random ops are such ladders across the price of any resting order. Before every "
+             "EndBlocker the harness observes, on a throw-away cache context, what ExecuteMatching is about to compute for every pair through the REAL "
+             "types.NewUserOrder and keeper.Match (the amm order built from every stored order; every order's fill), and after it whether each app's batch ids "
+             "advanced (ApplyFuncIfNoError swallows errors and panics: a rolled-back batch leaves no other trace). The runner diffs NewUserOrder's output against "
+             "Liquidity.user_order_amm of the stored record, the set of orders put on the book against Liquidity.on_book, the applied fills against the engine's, the "
+             "executed flags against Liquidity.end_block_trace, and evaluates holds_C05_life (a batch's payment <= REMAINING offer coin before it, matched <= open "
+             "amount) on the engine's and on the applied fills, holds_C07_life / holds_C07_life_step on every observed order record. Workload keeper-f1 = the directed search of C05 (known finding C05-F1 reached through the keeper by one limit order against small pools at low prices) judged by the C07 predicates: the escrow decomposition relative to the recorded fills (kf_C05_1_via_fills) and the executed flags (kf_C05_2_stall). Cases 0 and 1 start with the regression history of C07-F1 (market-making orders in app 2 / pair 1 resp. app 1 / "
              "its highest pair: place, next batch MsgCancelMMOrder, place again, replace by a second MsgMMOrder)",
         modelled=["the matching engine (amm.Match / FindMatchPrice, C05's subject): the fills of every batch (order id, matched amount, paid offer coin, "
                   "received demand coin), the pools' net reserve changes and the dust are read off the implementation's records and enter the model as ENV; "
@@ -21,7 +34,7 @@ PROP = dict(
                   "it placed, across deletions) and holds_C07_feecoll (a pair's fee collector holds the executed-portion fees of its terminated orders); "
                   "their per-order / per-step forms are the theorems c07_settled, c07_*_on_ledger"],
         assumptions=["an app's liquidity parameters are registered once before its first pair (parameter updates by governance are outside the histories)",
-                     "0 <= swap fee rate (enforced by the parameter validation; hypothesis params_ok of c07_cancellable)",
+                     "a rolled-back batch (endblock_batch_executed) is reported as a predicate failure: on the unchanged tree no history of the workload makes ExecuteRequests fail", "0 <= swap fee rate (enforced by the parameter validation; hypothesis params_ok of c07_cancellable)",
                      "plain accounts only (no vesting / blocked addresses)",
                      "c07_cancellable / c07_nothing_left are relative to C05: they carry the net of the recorded fills of the pair (surplus) explicitly"],
     )
@@ -33,7 +46,9 @@ MANIFEST = dict(
                "finite history of operations with any matching results, by a generic sweep over the model's leaf transitions: the per-order accounting "
                "identity (taken = offer + floor(offer*rate); returned = unspent offer + unattributable fee; received = sum of fills), the ledger movements "
                "behind each ghost, the exact decomposition of every pair escrow into the shares of its live orders plus the net of the recorded fills "
-               "(nothing of a terminated order remains), cancellability outside the placement batch, and completeness of the market-making index (cancel / "
+               "(nothing of a terminated order remains), an order's whole life across batches (each fill's payment covered by what was left before it, total paid <= offer "
+               "coin, remaining offer coin = offer - paid >= 0; what a batch may book is bounded by the offer-coin bound of the amm order NewUserOrder builds from the "
+               "record), the per-app executed / rolled-back trace of the end block, cancellability outside the placement batch, and completeness of the market-making index (cancel / "
                "replace cancels every live market-making order of the owner in the pair, for every app id / pair id). The defect C07-F1 (app id and pair id "
                "swapped in cancelMMOrder) was reproduced on the real keeper and repaired (fixes/C07-F1); the model follows the repaired code and the witness "
                "runs first in every check. The model is tied to /repo by a differential run of the real msg server, BeginBlocker and EndBlocker on every "
